@@ -1125,6 +1125,32 @@ func (s *st) variants(genuine []byte, full bool) (vs []variant, sample []variant
 		mutEntry("valid.entry_altered", 3, func(e *refenc.AuthServer) { e.HTTP++ })
 		mutEntry("valid.entry_altered", 4, func(e *refenc.AuthServer) { e.Location += "x" })
 		mutEntry("valid.entry_altered", 5, func(e *refenc.AuthServer) { e.Pub[0] ^= 0x80 })
+		// a second record for a key that lacks the GCA's signature, after a genuine first one
+		for i := 0; i < 6; i++ {
+			i := i
+			add("valid.entry_dup_second_unsigned", i, mustReject, rebuilt(s.Key.Priv, func(r *refenc.SyncReply) {
+				if len(r.Servers) == 0 {
+					r.Servers = append(r.Servers, s.entry(s.GCA))
+				}
+				d := r.Servers[i%len(r.Servers)]
+				d.Banned = i%2 == 0 || !d.Banned
+				if i >= 2 {
+					d.TCP++
+				}
+				switch i % 3 {
+				case 0:
+					d.Sig = [64]byte{}
+				case 1:
+					d = d.Signed(other.Priv)
+				default:
+					rng.Read(d.Sig[:])
+				}
+				r.Servers = append(r.Servers, d)
+			}))
+			if i == 0 {
+				pick("entry")
+			}
+		}
 		add("valid.entry_added_foreign", 0, mustReject, rebuilt(s.Key.Priv, func(r *refenc.SyncReply) { r.Servers = append(r.Servers, s.entry(other)) }))
 		// authentic variations
 		add("valid.entry_added_gca", 0, mustAccept, rebuilt(s.Key.Priv, func(r *refenc.SyncReply) { r.Servers = append(r.Servers, s.entry(s.GCA)) }))
@@ -1176,6 +1202,30 @@ func (s *st) variants(genuine []byte, full bool) (vs []variant, sample []variant
 						r.Servers[j] = r.Servers[j].Signed(k.Priv)
 					}
 				}
+				r.MigSig = order(r).Signed(s.GCA.Priv).Sig
+			}))
+			if i == 0 {
+				pick("mig")
+			}
+		}
+		for i := 0; i < 4; i++ {
+			i := i
+			add("valid.mig_dup_second_unsigned", i, mustReject, rebuilt(s.Key.Priv, func(r *refenc.SyncReply) {
+				if len(r.Servers) == 0 {
+					r.Servers = append(r.Servers, s.entry(s.G2))
+				}
+				d := r.Servers[i%len(r.Servers)]
+				d.Banned = i%2 == 0 || !d.Banned
+				d.UDP++
+				switch i % 3 {
+				case 0:
+					d.Sig = [64]byte{}
+				case 1:
+					d = d.Signed(s.GCA.Priv)
+				default:
+					rng.Read(d.Sig[:])
+				}
+				r.Servers = append(r.Servers, d)
 				r.MigSig = order(r).Signed(s.GCA.Priv).Sig
 			}))
 			if i == 0 {
@@ -1565,7 +1615,7 @@ func child(b run.Batch, r *ev.Result) {
 			r.Count(counts[v.class], 1)
 		case len(v.class) > 15 && v.class[:15] == "resign_otherkey":
 			r.Count("tamper.resign_otherkey", 1)
-		case len(v.class) >= 15 && v.class[:15] == "valid.entry_sig":
+		case len(v.class) >= 15 && (v.class[:15] == "valid.entry_sig" || v.class[:15] == "valid.entry_dup"):
 			r.Count("rejected.entry_sig", 1)
 		case len(v.class) >= 15 && v.class[:15] == "valid.mig_outer":
 			r.Count("rejected.mig_outer", 1)
